@@ -26,6 +26,8 @@ def run(ctx):
         neg = i % 2 == 1
         sess = [laws.rand_dgm(rng, rng.randint(0, 5), 8, neg=neg, diag=0.15) for _ in range(3)]
         sess.append(rng.sample(sess[0], len(sess[0])))
+        if len(sess[0]) >= 2:
+            sess.append(laws.repaired(rng, sess[0]))
         t = rng.choice([-20, -9, 5])
         sess.append([[b + t, d + t] for b, d in sess[0]]); sess.append([[b + t, d + t] for b, d in sess[1]])
         specs.append(dict(session=sess, fn="sw", emb=embs[i % len(embs)], M=rng.choice([1, 2]), anchor=1, aux=[], zerotol=Fraction(1, 10 ** 9)))
